@@ -4,7 +4,9 @@ bucket the adapter puts where.  Model: `ReplicatModel/B2Location.lean`; theorems
 The B2 service addresses a bucket by NAME in download-by-name URLs (`…/file/<bucketName>/<fileName>`) and by ID in the
 JSON API calls (`"bucketId": …`).  The adapter is given ONE string (name or id), looks the bucket up (`b2_list_buckets`, or the
 `allowed` part of the authorisation when the key is restricted to one bucket) and keeps a record `(id, name)`.  Emitted
-(all read from the current source, structurally — local aliases, helper methods and renamed variables are followed):
+(all read from the current source SEMANTICALLY: every method of the class is executed symbolically — `tools/symflow.py` — so local
+aliases, renamed variables / attributes / helpers, values built in helper methods or handed over as parameters, walrus / plain
+assignments and swapped comparisons do not matter):
 
 * `b2DownloadBucketRef : String` — what fills the bucket slot of every `/file/<…>/` URL of the class:
   `"resolved.name"` / `"resolved.id"` (a field of the looked-up record) or `"identifier"` (the connection string as given);
@@ -16,173 +18,157 @@ JSON API calls (`"bucketId": …`).  The adapter is given ONE string (name or id
 Anything not recognised (no such URL, different slots filled differently, an expression that cannot be traced) becomes `opaque`:
 the model still builds, the theorems that discharge the value by `decide` stop compiling.
 """
-import ast
 import json
 
-
-def _methods(cls):
-    return {f.name: f for f in cls.body if isinstance(f, (ast.FunctionDef, ast.AsyncFunctionDef))}
-
-
-def _params(fn):
-    a = fn.args
-    return [x.arg for x in a.posonlyargs + a.args] + [x.arg for x in a.kwonlyargs]
+import symflow as sf
+from symflow import SELF, is_const, method_call, subterms, strip_wrappers
 
 
-def _strip(e):
-    """drop `await`, parentheses are not nodes"""
-    while isinstance(e, ast.Await):
-        e = e.value
-    return e
+def _field(v):
+    """the JSON key a value was read from: `<…>['bucketId']` / `<…>.get('bucketId')` → 'bucketId'"""
+    if v[0] == 'sub' and is_const(v[2], str):
+        return v[2][1]
+    m = method_call(v, ('get',))
+    if m is not None and m[2] and is_const(m[2][0], str):
+        return m[2][0][1]
+    if v[0] == 'phi':
+        a, b = _field(v[2]), _field(v[3])
+        return a if a == b else None
+    return None
 
 
-def _bindings(fn, name):
-    """values bound to the local `name` inside fn: plain assignments, walrus, annotated assignments"""
-    out = []
-    for n in ast.walk(fn):
-        if isinstance(n, ast.Assign) and len(n.targets) == 1 and isinstance(n.targets[0], ast.Name) and n.targets[0].id == name:
-            out.append(n.value)
-        elif isinstance(n, ast.AnnAssign) and isinstance(n.target, ast.Name) and n.target.id == name and n.value is not None:
-            out.append(n.value)
-        elif isinstance(n, ast.NamedExpr) and isinstance(n.target, ast.Name) and n.target.id == name:
-            out.append(n.value)
-    return out
-
-
-class _Tracer:
-    def __init__(self, cls, unparse):
-        self.m = _methods(cls)
-        self.unparse = unparse
-        init = self.m.get('__init__')
-        # attributes that hold the connection string: `self.X = <first parameter after self>` (possibly through str())
+class _Facts:
+    def __init__(self, mod):
+        self.it = sf.Interp(mod, 'B2')
+        names = list(self.it.methods)
+        self.runs = {}
+        for n in names:
+            ev, _ = self.it.run(n)
+            self.runs[n] = list(ev or [])
+        # helpers that other methods inline are judged where they are used (their parameters are bound there)
+        inlined = {c[2] for ev in self.runs.values() for e in ev for c in e.ctx if c[0] == 'inline' and len(c) > 2}
+        self.entry = {n: ev for n, ev in self.runs.items() if n not in inlined or n in ('authenticate',)}
         self.ident_attrs = set()
-        if init is not None and len(_params(init)) >= 2:
-            conn = _params(init)[1]
-            for n in ast.walk(init):
-                if isinstance(n, ast.Assign) and len(n.targets) == 1 and self._self_attr(n.targets[0]):
-                    v = n.value
-                    if isinstance(v, ast.Call) and unparse(v.func) == 'str' and len(v.args) == 1:
-                        v = v.args[0]
-                    if isinstance(v, ast.Name) and v.id == conn:
-                        self.ident_attrs.add(n.targets[0].attr)
-        # attributes that hold the bucket record: assigned from a call with keywords id= and name=
-        self.record_calls = []         # (fn, Call)
-        self.bucket_attrs = set()
-        for fn in self.m.values():
-            for n in ast.walk(fn):
-                if isinstance(n, ast.Assign) and len(n.targets) == 1 and self._self_attr(n.targets[0]) and isinstance(n.value, ast.Call) \
-                        and {'id', 'name'} <= {k.arg for k in n.value.keywords}:
-                    self.bucket_attrs.add(n.targets[0].attr)
-                    self.record_calls.append((fn, n.value))
-        # methods that hand out the record
-        self.getters = set()
-        for name, fn in self.m.items():
-            for n in ast.walk(fn):
-                if isinstance(n, ast.Return) and n.value is not None and self._self_attr(n.value) and n.value.attr in self.bucket_attrs:
-                    self.getters.add(name)
+        for e in self.runs.get('__init__', []):
+            if e.kind == 'store' and e.value[0] == 'attr' and e.value[1] == SELF and isinstance(e.extra, tuple) \
+                    and strip_wrappers(e.extra, ('str',)) == ('arg', 0):
+                self.ident_attrs.add(e.value[2])
+        self.bucket_attrs, self.records = set(), []
+        for n, ev in self.runs.items():
+            for e in ev:
+                if e.kind == 'store' and e.value[0] == 'attr' and e.value[1] == SELF and isinstance(e.extra, tuple) and e.extra[0] == 'call' \
+                        and {'id', 'name'} <= set(dict(e.extra[3])):
+                    self.bucket_attrs.add(e.value[2])
+                    self.records.append(e.extra)
 
-    @staticmethod
-    def _self_attr(e):
-        return isinstance(e, ast.Attribute) and isinstance(e.value, ast.Name) and e.value.id == 'self'
-
-    def _through_callers(self, fn, name, what, depth):
-        """`name` is a parameter of method fn: classify the argument at every call `self.<fn>(…)` of the class; all must agree"""
-        ps = _params(fn)
-        if name not in ps or name == 'self':
-            return None
-        pos = ps.index(name) - 1
-        found = set()
-        for caller in self.m.values():
-            for n in ast.walk(caller):
-                if isinstance(n, ast.Call) and self._self_attr(n.func) and n.func.attr == fn.name:
-                    arg = None
-                    for k in n.keywords:
-                        if k.arg == name:
-                            arg = k.value
-                    if arg is None and 0 <= pos < len(n.args):
-                        arg = n.args[pos]
-                    found.add(what(arg, caller, depth + 1) if arg is not None else None)
-        return found.pop() if len(found) == 1 else None
-
-    def is_bucket(self, e, fn, depth=0):
-        e = _strip(e)
-        if depth > 6 or e is None:
-            return False
-        if isinstance(e, ast.Call) and self._self_attr(e.func) and e.func.attr in self.getters:
+    def is_bucket(self, v):
+        if v[0] == 'attr' and v[1] == SELF and v[2] in self.bucket_attrs:
             return True
-        if self._self_attr(e) and e.attr in self.bucket_attrs:
-            return True
-        if isinstance(e, ast.Name):
-            bs = _bindings(fn, e.id)
-            if bs:
-                return all(self.is_bucket(b, fn, depth + 1) for b in bs)
-            return bool(self._through_callers(fn, e.id, lambda a, f, d: self.is_bucket(a, f, d) or None, depth))
+        if v[0] == 'phi':
+            return self.is_bucket(v[2]) and self.is_bucket(v[3])
+        if v[0] == 'join':
+            return all(self.is_bucket(x) for x in v[2])
         return False
 
-    def ref(self, e, fn, depth=0):
+    def ref(self, v):
         """'resolved.name' | 'resolved.id' | 'identifier' | None"""
-        e = _strip(e)
-        if depth > 6 or e is None:
-            return None
-        if isinstance(e, ast.Call) and self.unparse(e.func) == 'str' and len(e.args) == 1:
-            return self.ref(e.args[0], fn, depth + 1)
-        if self._self_attr(e) and e.attr in self.ident_attrs:
+        v = strip_wrappers(v, ('str',))
+        if v[0] == 'attr' and v[1] == SELF and v[2] in self.ident_attrs:
             return 'identifier'
-        if isinstance(e, ast.Attribute) and e.attr in ('name', 'id') and self.is_bucket(e.value, fn, depth + 1):
-            return 'resolved.' + e.attr
-        if isinstance(e, ast.Name):
-            bs = _bindings(fn, e.id)
-            if bs:
-                got = {self.ref(b, fn, depth + 1) for b in bs}
-                return got.pop() if len(got) == 1 else None
-            return self._through_callers(fn, e.id, self.ref, depth)
+        if v[0] == 'attr' and v[2] in ('name', 'id') and self.is_bucket(v[1]):
+            return 'resolved.' + v[2]
+        if v[0] == 'phi':
+            a, b = self.ref(v[2]), self.ref(v[3])
+            return a if a == b else None
         return None
 
-    def field(self, e, fn, depth=0):
-        """the JSON key a value was read from: `<…>['bucketId']` → 'bucketId' (through local names)"""
-        e = _strip(e)
-        if depth > 6 or e is None:
-            return None
-        if isinstance(e, ast.NamedExpr):
-            return self.field(e.value, fn, depth + 1)
-        if isinstance(e, ast.Subscript) and isinstance(e.slice, ast.Constant) and isinstance(e.slice.value, str):
-            return e.slice.value
-        if isinstance(e, ast.Call) and isinstance(e.func, ast.Attribute) and e.func.attr == 'get' and e.args \
-                and isinstance(e.args[0], ast.Constant) and isinstance(e.args[0].value, str):
-            return e.args[0].value
-        if isinstance(e, ast.Name):
-            got = {self.field(b, fn, depth + 1) for b in _bindings(fn, e.id)}
-            return got.pop() if len(got) == 1 else None
-        return None
+    def _terms(self, e):
+        yield e.value
+        if isinstance(e.extra, tuple):
+            yield e.extra
 
-    def match_fields(self, fn):
-        """fields the connection string is compared with in fn (`ident in {a, b}`, `ident not in …`, `ident == a or ident == b`)"""
-        if fn is None:
+    def download_slots(self):
+        """[(method, classification of what follows a literal '…/file/' in a formatted string)]"""
+        out = []
+        for n, ev in sorted(self.entry.items()):
+            seen = set()
+            for e in ev:
+                for t0 in self._terms(e):
+                    for t in subterms(t0):
+                        if t[0] == 'concat' and t not in seen:
+                            seen.add(t)
+                            for a, b in zip(t[1], t[1][1:]):
+                                if is_const(a, str) and a[1].endswith('/file/') and not is_const(b):
+                                    out.append((n, self.ref(b)))
+        return out
+
+    def api_bucket_ids(self):
+        """[(method, classification of the value of a 'bucketId' key of a dict the method builds or fills)]"""
+        out = []
+        for n, ev in sorted(self.entry.items()):
+            seen = set()
+            for e in ev:
+                if e.kind == 'store' and e.value[0] == 'sub' and e.value[2] == ('const', 'bucketId') and isinstance(e.extra, tuple):
+                    out.append((n, self.ref(e.extra)))
+                for t0 in self._terms(e):
+                    for t in subterms(t0):
+                        if t[0] == 'dict' and t not in seen:
+                            seen.add(t)
+                            for k, v in t[1]:
+                                if k == ('const', 'bucketId'):
+                                    out.append((n, self.ref(v)))
+        return out
+
+    def match_fields(self, method):
+        """fields of a reported bucket the connection string is compared with in the method (`ident in {a, b}`, `ident == a or …`)"""
+        ev = self.runs.get(method)
+        if not ev:
             return None
-        out = set()
-        seen = False
-        for n in ast.walk(fn):
-            if not (isinstance(n, ast.Compare) and len(n.ops) == 1):
-                continue
-            left, right, op = n.left, n.comparators[0], n.ops[0]
-            if isinstance(op, (ast.In, ast.NotIn)) and self.ref(left, fn) == 'identifier' and isinstance(right, (ast.Set, ast.Tuple, ast.List)):
+        out, seen = set(), False
+
+        def atom(a):
+            nonlocal seen
+            if not isinstance(a, tuple) or not a:
+                return
+            if a[0] == 'or' and isinstance(a[1], frozenset):
+                for x, _ in a[1]:
+                    atom(x)
+            elif a[0] == 'in' and self.ref(a[1]) == 'identifier' and a[2][0] in ('set', 'tuple', 'list'):
                 seen = True
-                for el in right.elts:
-                    out.add(self.field(el, fn))
-            elif isinstance(op, (ast.Eq, ast.NotEq)):
-                for a, b in ((left, right), (right, left)):
-                    if self.ref(a, fn) == 'identifier':
+                for el in a[2][1]:
+                    out.add(_field(el))
+            elif a[0] == 'eq':
+                for x, y in ((a[1], a[2]), (a[2], a[1])):
+                    if self.ref(x) == 'identifier':
                         seen = True
-                        out.add(self.field(b, fn))
+                        out.add(_field(y))
+            elif a[0] in ('and', 'not'):
+                for x in (a[1] if a[0] == 'and' else (a[1],)):
+                    atom(x)
+        for e in ev:
+            for a, _ in e.guard:
+                atom(a)
         if not seen or None in out:
             return None
         return sorted(out)
 
+    def getters(self):
+        """methods that hand out the bucket record"""
+        return sorted(n for n, ev in self.runs.items() if n != '__init__' and any(
+            e.kind == 'return' and not any(c[0] == 'inline' for c in e.ctx) and self.is_bucket(e.value) for e in ev))
+
+    def record_ok(self):
+        ok = bool(self.records)
+        for call in self.records:
+            kw = dict(call[3])
+            if _field(kw['id']) != 'bucketId' or _field(kw['name']) != 'bucketName':
+                ok = False
+        return ok
+
 
 def section(ctx):
-    emit, notes, unparse = ctx.emit, ctx.notes, ctx.unparse
-    tree = ast.parse((ctx.REPO / 'replicat' / 'backends' / 'b2.py').read_text())
-    cls = ctx.find_func(tree, 'B2')
+    emit, notes = ctx.emit, ctx.notes
+    mod = sf.Module((ctx.REPO / 'replicat' / 'backends' / 'b2.py').read_text())
     emit('/-! ### B2 backend: the repository location (bucket name or bucket id) -/')
 
     def s(x):
@@ -195,48 +181,42 @@ def section(ctx):
         else:
             emit(f'def {name} : {typ} := {render(value)}')
 
-    if not isinstance(cls, ast.ClassDef):
+    facts = None
+    got = {}
+    if 'B2' in mod.classes:
+        try:
+            facts = _Facts(mod)
+            getters = facts.getters()
+            got = {'dl': facts.download_slots(), 'api': facts.api_bucket_ids(),
+                   'list': facts.match_fields(getters[0]) if getters else None, 'allowed': facts.match_fields('authenticate'),
+                   'record': facts.record_ok()}
+        except Exception as e:  # noqa: BLE001
+            notes['b2loc'] = f'symbolic execution failed: {e!r}'
+            facts = None
+    if facts is None:
         for name, typ in (('b2DownloadBucketRef', 'String'), ('b2ApiBucketRef', 'String'), ('b2ListMatchFields', 'List String'),
                           ('b2AllowedMatchFields', 'List String')):
-            opt(name, typ, None, s, 'class B2 not found')
+            opt(name, typ, None, s, 'class B2 not found / not executable')
         emit('def b2BucketRecordOk : Bool := false')
         return
-    tr = _Tracer(cls, unparse)
     # ---- the bucket slot of every download-by-name URL: the formatted value right after a literal piece ending in '/file/'
-    dl = []
-    for fn in tr.m.values():
-        for n in ast.walk(fn):
-            if isinstance(n, ast.JoinedStr):
-                for a, b in zip(n.values, n.values[1:]):
-                    if isinstance(a, ast.Constant) and isinstance(a.value, str) and a.value.endswith('/file/') and isinstance(b, ast.FormattedValue):
-                        dl.append((fn.name, tr.ref(b.value, fn)))
+    dl = got['dl']
     kinds = {k for _, k in dl}
     notes['b2loc:download-urls'] = ', '.join(f'{m}→{k}' for m, k in dl) or 'none found'
     opt('b2DownloadBucketRef', 'String', kinds.pop() if len(kinds) == 1 and None not in kinds else None, s,
         'the /file/<bucket>/ URLs of the class do not all fill the bucket slot with the same traceable expression: ' + notes['b2loc:download-urls'])
     # ---- the value of every 'bucketId' key of a request body
-    api = []
-    for fn in tr.m.values():
-        for n in ast.walk(fn):
-            if isinstance(n, ast.Dict):
-                for k, v in zip(n.keys, n.values):
-                    if isinstance(k, ast.Constant) and k.value == 'bucketId':
-                        api.append((fn.name, tr.ref(v, fn)))
+    api = got['api']
     kinds = {k for _, k in api}
     notes['b2loc:api-bucket-ids'] = ', '.join(f'{m}→{k}' for m, k in api) or 'none found'
     opt('b2ApiBucketRef', 'String', kinds.pop() if len(kinds) == 1 and None not in kinds else None, s,
         "the 'bucketId' values of the class are not all the same traceable expression: " + notes['b2loc:api-bucket-ids'])
     # ---- how the connection string is matched against the reported buckets
-    render = lambda v: '[' + ', '.join(s(x) for x in v) + ']'
-    getter = next((tr.m[g] for g in sorted(tr.getters)), None)
-    opt('b2ListMatchFields', 'List String', tr.match_fields(getter), render)
-    opt('b2AllowedMatchFields', 'List String', tr.match_fields(tr.m.get('authenticate')), render)
+    render = lambda v: '[' + ', '.join(s(x) for x in v) + ']'  # noqa: E731
+    opt('b2ListMatchFields', 'List String', got['list'], render)
+    opt('b2AllowedMatchFields', 'List String', got['allowed'], render)
     # ---- the record: id from 'bucketId', name from 'bucketName'
-    ok = bool(tr.record_calls)
-    for fn, call in tr.record_calls:
-        kw = {k.arg: k.value for k in call.keywords}
-        if tr.field(kw['id'], fn) != 'bucketId' or tr.field(kw['name'], fn) != 'bucketName':
-            ok = False
+    ok = got['record']
     if not ok:
         notes['b2loc:b2BucketRecordOk'] = 'a bucket record is not built as (id=…[bucketId], name=…[bucketName])'
     emit(f'def b2BucketRecordOk : Bool := {"true" if ok else "false"}')
